@@ -90,6 +90,7 @@ func cmdCheck(args []string) int {
 	var expected map[string][]string
 	_ = loadJSON(filepath.Join(verifDir, "expected_obligations.json"), &expected)
 
+	sweepWanted = prop == "C01" || prop == "C11"
 	gr, err := generateAll(*repo, func(c *FuncContract) bool {
 		return crossCutting[prop] || hasProp(c.Props, prop) || clauseMentionsProp(c, prop)
 	})
